@@ -52,20 +52,51 @@ Definition hashedData (c : digestCheck) : list N :=
 Definition signatureContent (cmsContent data : list N) : list N :=
   if isNil cmsContent then data else cmsContent.
 
-(* verifyP7SignerWithContentType, DocModified only, one signer whose certificate is found and
-   who has signed attributes.  attrDigestOK x: H(x) equals the messageDigest attribute;
-   sha1eq d c: SHA1(d) = c; sigOK: the cryptographic signature over the attributes verifies.
-   checkSignature: crypto failure first (DocModified stays Unknown), then the content-binding
-   digest mismatch (True); then applyP7DigestEvidence (True) / markDocumentUnmodified (False). *)
-Definition p7Verdict (attrDigestOK : list N -> bool) (sha1eq : list N -> list N -> bool)
-    (sigOK : bool) (cmsContent data : list N) : tri :=
-  let digestOK := match dataToVerify cmsContent data with
-                  | AttrDigestOf d => attrDigestOK d
-                  | Sha1EqualsContent d c => sha1eq d c
-                  end in
-  if negb sigOK then TUnknown
-  else if negb (attrDigestOK (signatureContent cmsContent data)) then TTrue
-  else if digestOK then TFalse else TTrue.
+(* verifyP7SignerWithContentType (sign/pkcs7.go:330), DocModified only, one signer whose
+   certificate is found.  The case split (CMS content encapsulated?, signed attributes present?)
+   is transcribed from verifyP7Digest (sign/pkcs7.go:579) and pkcs7.checkSignature
+   (pkcs7/verify.go:105):
+     attrOK x        : H(x) equals the messageDigest attribute (VerifyMessageDigestDetached)
+     sha1eq d c      : SHA1(d) = c                              (VerifyMessageDigestEmbedded)
+     sigAttrsOK      : the cryptographic signature over the signed attributes verifies
+     sigContentOK x  : the cryptographic signature verifies directly over x (no signed attributes)
+   verifyP7Digest chooses by DETACHED vs ENCAPSULATED, not by the presence of attributes:
+     detached, no attributes -> malformed (DocModified stays Unknown)
+     detached                -> H(ByteRange bytes) vs messageDigest attribute
+     encapsulated            -> SHA1(ByteRange bytes) vs p7.Content, with or without attributes
+   checkSignature: with attributes the crypto check over the attributes comes first (failure:
+   Unknown), then the content binding H(content) vs messageDigest (mismatch: True); without
+   attributes the signature is checked over the content itself (failure: Unknown). *)
+Inductive digestOutcome := DigestOK | DigestMismatch | DigestMalformed.
+
+Definition p7Digest (attrOK : list N -> bool) (sha1eq : list N -> list N -> bool)
+    (hasAttrs : bool) (cmsContent data : list N) : digestOutcome :=
+  match dataToVerify cmsContent data with
+  | AttrDigestOf d => if negb hasAttrs then DigestMalformed
+                      else if attrOK d then DigestOK else DigestMismatch
+  | Sha1EqualsContent d c => if sha1eq d c then DigestOK else DigestMismatch
+  end.
+
+Definition p7Verdict (attrOK : list N -> bool) (sha1eq : list N -> list N -> bool)
+    (hasAttrs sigAttrsOK : bool) (sigContentOK : list N -> bool) (cmsContent data : list N) : tri :=
+  let content := signatureContent cmsContent data in
+  let after_signature :=
+    match p7Digest attrOK sha1eq hasAttrs cmsContent data with
+    | DigestOK => TFalse            (* markDocumentUnmodified *)
+    | DigestMismatch => TTrue       (* markInvalidEvidence(DocModified, True) *)
+    | DigestMalformed => TUnknown   (* markMalformedEvidence *)
+    end in
+  if hasAttrs then
+    if negb sigAttrsOK then TUnknown
+    else if negb (attrOK content) then TTrue
+    else after_signature
+  else
+    if negb (sigContentOK content) then TUnknown else after_signature.
+
+(* sign/pkcs1.go:290 verifyRSASHA1Signature + handleP1VerificationError (adbe.x509.rsa_sha1):
+   sigMatches d: rsa.VerifyPKCS1v15(key, SHA1, SHA1(d), signature) succeeds *)
+Definition p1Verdict (sigMatches : list N -> bool) (data : list N) : tri :=
+  if sigMatches data then TFalse else TTrue.
 
 Fixpoint eqbList (a b : list N) : bool :=
   match a, b with
@@ -74,7 +105,11 @@ Fixpoint eqbList (a b : list N) : bool :=
   | _, _ => false
   end.
 
-(* harness entry point: the messageDigest attribute is the digest of [good]; sha1ok tells whether
-   SHA1(ByteRange bytes) = cmsContent (computed by the harness) *)
-Definition docModifiedP7With (good : list N) (sha1ok sigOK : bool) (cmsContent : list N) :=
-  docModified (p7Verdict (fun x => eqbList x good) (fun _ _ => sha1ok) sigOK cmsContent).
+(* harness entry points: the messageDigest attribute is the digest of [good]; the attribute-less
+   signature was made over [goodSig]; sha1ok tells whether SHA1(ByteRange bytes) = cmsContent
+   (computed by the harness) *)
+Definition docModifiedP7With (good goodSig : list N) (hasAttrs sha1ok sigAttrsOK : bool) (cmsContent : list N) :=
+  docModified (p7Verdict (fun x => eqbList x good) (fun _ _ => sha1ok) hasAttrs sigAttrsOK
+                         (fun x => eqbList x goodSig) cmsContent).
+Definition docModifiedP1With (good : list N) :=
+  docModified (p1Verdict (fun x => eqbList x good)).
